@@ -1907,6 +1907,31 @@ class SymEval:
                 for i_ in out.indices():
                     out.entries[i_] = self.rat(args[0])     # a scalar repeated to fill the shape
                 return out
+        if q == 'numpy.full' and len(args) >= 2 and set(kwargs) <= {'dtype'}:
+            # a scalar, or an array of the trailing dimensions, repeated to fill the shape
+            shp = args[0] if isinstance(args[0], (tuple, list)) else (args[0],)
+            shp = [int(self.A.const_of(d)) if isinstance(d, Rat) and self.A.is_const(d) else d
+                   for d in shp]
+            fill = args[1]
+            if isinstance(fill, Rec):
+                fill = self.to_array(fill)
+            if all(isinstance(d, int) and not isinstance(d, bool) for d in shp):
+                tot = 1
+                for d in shp:
+                    tot *= d
+                if tot <= 400000:
+                    out = SArray(tuple(shp), {})
+                    if isinstance(fill, SArray) and not fill.sample and \
+                            tuple(shp[len(shp) - len(fill.shape):]) == fill.shape:
+                        k_ = len(shp) - len(fill.shape)
+                        for i_ in out.indices():
+                            out.entries[i_] = fill.get(i_[k_:])
+                        return out
+                    if isinstance(fill, (Rat, int, float)) and not isinstance(fill, bool):
+                        v_ = self.rat(fill)
+                        for i_ in out.indices():
+                            out.entries[i_] = v_
+                        return out
         if q in ('numpy.zeros', 'numpy.empty', 'numpy.ones'):
             return self.alloc(args[0], A.const(0) if q.endswith('zeros') else
                               (A.const(1) if q.endswith('ones') else None))
